@@ -109,6 +109,8 @@ def angle_arrays(max_ndim=3, small=False):
     fams.append(("vec-vec", rng.uniform(-span, span, n), rng.uniform(-span, span, n)))
     fams.append(("col-row", rng.uniform(-np.pi, np.pi, (n, 1)), rng.uniform(-span, span, (1, m))))
     fams.append(("scalar-vec", float(rng.uniform(-span, span)), rng.uniform(-span, span, m)))
+    fams.append(("vec-scalar", rng.uniform(-span, span, m), float(rng.uniform(-span, span))))
+    fams.append(("col-one", rng.uniform(-span, span, (n, 1)), rng.uniform(-span, span, (1, 1))))
     fams.append(("mat-row", rng.uniform(-span, span, (n, m)), rng.uniform(-span, span, m)))
     special = np.array([0.0, np.pi, -np.pi, np.pi / 2, -np.pi / 2, np.nextafter(np.pi, 0), 2 * np.pi, -3 * np.pi,
                         np.pi / 4, 1e-9, 5 * np.pi / 2])
